@@ -398,7 +398,9 @@ pub fn run_case(case: &mut Case) {
         let mut items = Vec::new();
         d.spec.root.all_items(&mut items);
         for it in items {
-            if it.is_arg() {
+            // (text-typed ones: an invalid value makes the enclosing level fail and answer for
+            // its subcommands, F07)
+            if it.is_arg() && it.ty().map_or(false, |t| !t.is_num()) {
                 for v in &it.names.envs {
                     std::env::set_var(v, "first line\n\nsecond paragraph \\ \"quoted\"");
                     vars_set.push(v.clone());
@@ -466,6 +468,19 @@ pub fn run_case(case: &mut Case) {
                 Err(_) => continue,
             };
             let _ = full;
+            // an enclosing level that is not satisfied answers with its own screen (F07, C10's
+            // subject): the paragraphs of the command's texts are not expected there
+            if what == "command-help" {
+                let name = String::from_utf8_lossy(&argv[0]).to_string();
+                let own = long
+                    .lines()
+                    .find(|l| l.starts_with("Usage:"))
+                    .map_or(false, |l| l.contains(&format!("app {}", name)));
+                if !own {
+                    case.rep.count("command-help-answered-by-enclosing-level");
+                    continue;
+                }
+            }
             for hp in &d.helps {
                 if !long.contains(&hp.first) {
                     continue; // not part of this level's help (other level, hidden, deduplicated)
